@@ -330,6 +330,8 @@ def main():
     with open(os.path.join(EVID, prop + ".json"), "w") as f:
         json.dump(ev, f, indent=1)
 
+    if getattr(ctx, "suppressed", 0):
+        say("  (%d further violations of the same run not listed)" % ctx.suppressed)
     if violations:
         rdir = os.path.join(EVID, "replays"); os.makedirs(rdir, exist_ok=True)
         for i, (msg, rp, found) in enumerate(violations):
@@ -440,6 +442,10 @@ class Ctx:
                 if hit not in self.known_hits:
                     self.known_hits.append(hit)
                 return
+        self.nviol = getattr(self, "nviol", 0) + 1
+        if self.nviol > 12:
+            self.suppressed = getattr(self, "suppressed", 0) + 1
+            return
         rp = None
         if case_text is not None:
             rp = self.replay_path(name + str(len(self.violations)))
